@@ -152,6 +152,9 @@ type Service struct {
 	Query     []Field  `json:"query"`
 	Colors    []string `json:"colors,omitempty"` // enum values this service knows (default: all)
 	LeafFull  bool     `json:"leaf"`             // register Leaf explicitly
+	// MirrorMutation registers every Query field func on Mutation as well (same resolvers over the same world),
+	// so that a selection set can be run as a mutation.
+	MirrorMutation bool `json:"mirror_mutation,omitempty"`
 }
 
 func GqlName(goName string) string {
@@ -519,10 +522,14 @@ func Build(svc Service, w *World, worldColors []string) (s *schemabuilder.Schema
 	}
 	s.Enum(Color(0), em)
 	q := s.Query()
-	s.Mutation()
+	m := s.Mutation()
 	for _, f := range svc.Query {
 		fn, opts := w.fieldFunc("Query", nil, f, worldColors)
 		q.FieldFunc(GqlName(f.Name), fn, opts...)
+		if svc.MirrorMutation {
+			fn2, opts2 := w.fieldFunc("Query", nil, f, worldColors)
+			m.FieldFunc(GqlName(f.Name), fn2, opts2...)
+		}
 	}
 	objs := append([]Object{}, svc.Objects...)
 	sort.SliceStable(objs, func(i, j int) bool { return objs[i].Name < objs[j].Name })
